@@ -21,7 +21,7 @@ RULE = ("operation histories of 3-14 steps over a growing pool of operands (plai
 ASSUMPTIONS = ["'same colours' means same visible state in the terminal model; all pool formatters have "
                "pairwise different visible states", "format specs are limited to [[fill]align][width]['s']"]
 TIERS = {
-    "quick": {"shards": 4, "cases": 4000, "timeout": 300},
+    "quick": {"shards": 4, "cases": 4600, "timeout": 300},
     "thorough": {"shards": 16, "cases": 30000, "timeout": 3000},
 }
 FLOORS = {"quick": {"texts_whose_characters_look_like_colour_sequences": 500,
@@ -146,7 +146,7 @@ def run_history(ctx, rng, script=None):
         for _step in range(n_steps):
             def gen_op():
                 op = rng.choice(['ctor', 'add', 'radd', 'iadd', 'iadd', 'self_iadd', 'join', 'idx', 'slice', 'slice',
-                                 'fixed', 'fmt', 'fmt', 'leaf', 'iadd_inplace', 'add_empty', 'iadd_seq', 'resize'])
+                                 'fixed', 'fmt', 'fmt', 'leaf', 'iadd_inplace', 'add_empty', 'iadd_seq', 'resize', 'make'])
                 a, b = choose(len(pool)), choose(len(pool))
                 rec = [op, a, b]
                 la = len(pool[a][1])
@@ -348,6 +348,14 @@ def run_history(ctx, rng, script=None):
                     ctx.count("slices")
                     if multi_coloured(ma) and any(x is not None and (x < 0 or x > len(ma)) for x in (lo, hi)):
                         nontrivial = True
+                elif op == 'make':
+                    # the documented constructor from a ready list of chunks (what the package's printers use): the
+                    # chunks of two texts, one after the other
+                    if not (isinstance(a, CHText) and isinstance(b, CHText)):
+                        continue
+                    r = CHText.make(list(a.chunks) + list(b.chunks))
+                    mr = ma + mb
+                    ctx.count("texts_made_from_two_chunk_lists")
                 elif op == 'resize':
                     # the chunk-list twin of fixed_len (the helper the table code cuts and pads cells with),
                     # fed with the live chunk list of a text: the text itself must stay what it is
@@ -415,6 +423,10 @@ def run_history(ctx, rng, script=None):
                 fail("plain-text-differs", {"op": rec, "got": r.plain_text(), "expected": text})
             if len(r) != len(mr):
                 fail("len-differs", {"op": rec, "got": len(r), "expected": len(mr)})
+            if CHText.strip_colors(str(r)) != text:
+                # (the documented way from the printed form back to the visible characters)
+                fail("plain-text-differs", {"op": rec, "got": CHText.strip_colors(str(r))[:80], "expected": text[:80],
+                                            "via": "strip_colors(str())"})
             try:
                 got = sgr.cells(str(r))
             except sgr.SgrError as err:
